@@ -47,7 +47,7 @@ where
             std::io::ErrorKind::UnexpectedEof.into(),
         ));
     }
-    let rhost = if ip >> 24 == 0 {
+    let rhost = if ip >> 8 == 0 && ip != 0 {
         let mut domain = Vec::new();
         reader
             .read_until(0, &mut domain)
